@@ -1,9 +1,30 @@
-(* C11 — placeholder until the refinement proof lands (see FS/RefineProofs.v). *)
-From Coq Require Import List NArith Bool.
-From PyFS Require Import Base.PyStr Base.Outcome FS.Tree FS.Ops FS.Ref FS.Agree FS.Mem.
+(* C11 — Equivalent spellings of a path are interchangeable everywhere (reference: all calls; MemoryFS model: every call except makedirs, see DESIGN.md). *)
+From Coq Require Import List NArith ZArith Bool Arith.
+From PyFS Require Import Base.PyStr Base.Outcome Path.PathModel Path.PathSpec FS.Tree FS.Monad FS.Mode FS.Base
+     FS.Mem FS.Ops FS.Ref FS.Agree FS.Props FS.Wf FS.PropsProofs.
 Import ListNotations.
 
-Theorem C11_ref_makedir_example :
-  agree (mem_run (OMakedir [97%N] false) empty_dir) (ref_run (OMakedir [97%N] false) empty_dir) = true.
-Proof. reflexivity. Qed.
-Print Assumptions C11_ref_makedir_example.
+Theorem C11_rpath_spelling : forall p p',
+  has_char Ref.nul p = false -> has_char Ref.nul p' = false ->
+  resolve (comps p) = resolve (comps p') -> rpath p = rpath p'.
+Proof. exact rpath_spelling. Qed.
+Print Assumptions C11_rpath_spelling.
+
+Theorem C11_ref_spelling : forall o o' t, same_call o o' -> ref_run o t = ref_run o' t.
+Proof. exact ref_spelling. Qed.
+Print Assumptions C11_ref_spelling.
+
+Theorem C11_mem_validatepath_spelling : forall p p' s,
+  rpath p = rpath p' -> mem_validatepath p s = mem_validatepath p' s.
+Proof. exact mem_validatepath_spelling. Qed.
+Print Assumptions C11_mem_validatepath_spelling.
+
+Theorem C11_mem_spelling : forall o o' s,
+  wf s -> same_call o o' -> covered o = true -> mem_run o s = mem_run o' s.
+Proof. exact mem_spelling. Qed.
+Print Assumptions C11_mem_spelling.
+
+Theorem C11_mem_spelling_dirs : forall o o' s,
+  same_call o o' -> is_dirop o = true -> mem_run o s = mem_run o' s.
+Proof. exact mem_spelling_dirs. Qed.
+Print Assumptions C11_mem_spelling_dirs.
